@@ -360,6 +360,7 @@ REWRITES_DOC = {
     'R20': 'total variant of a function that panics as documented: `E.unwrap()` -> `E.verif_unwrap_atomic(Ghost(CHK))`, `assert!(C, ..)` -> `verif_assert_atomic(C, Ghost(CHK))`: the models return only when no panic occurs and REQUIRE that the state named by CHK is unchanged when one does (C16: a refused call leaves the builder as it was)',
     'R21': 'state-passing form of an `FnMut` closure that assigns one captured local (Verus has no closures capturing `&mut`): callee variant `F: FnMut(A) -> R` -> `F: Fn(A, S) -> (R, S)` with `verif_st: &mut S` and every call `f(X)` -> `({ let verif_sp = f(X, *verif_st); *verif_st = verif_sp.1; verif_sp.0 })`; caller `x.g(|p| { B })` -> `x.g_st(|p, verif_st_in: S| { let mut V = verif_st_in; B }, &mut V)` with `return E;` -> `return (E, V);` (the classical translation: the closure reads and writes V only through the threaded value, the callee stores it back after every call)',
     'R22': 'a trait impl that no longer defines a method under contract: the PROVIDED method of the trait declaration is verified in its place, with Self = the implementing type (what Rust runs when an override is removed)',
+    'R23': 'a type that no longer implements Drop: the drop glue (the fields that implement Drop in this crate are dropped in declaration order) is written out and verified against the contract stated for dropping the type',
     'R15': 'fully qualified `std::cmp::f` / `core::cmp::f` -> `cmp::f` (the path through the crate\'s own `use std::cmp;`; both name the function the model module cmp declares)',
     'R8': 'struct fields widened to pub inside the unit',
     'R1': 'doc comments / #[inline] / derives dropped',
@@ -671,6 +672,7 @@ def weave_fn(src, container, name, nth, opts, subs, mode, sig_only=False):
     """returns (woven_text, record)"""
     impl_src = src
     r22 = False
+    r23 = False
     try:
         s, o, c = src.find_fn(container, name, nth)
     except Lost as e_:
@@ -678,10 +680,35 @@ def weave_fn(src, container, name, nth, opts, subs, mode, sig_only=False):
         # PROVIDES that method, Rust runs the provided body with Self = the implementing type: that body is what is verified against the
         # contract of the impl (`impl BitVec for SparseVector` without `count_zeros` -> `BitVec::count_zeros`'s default `self.len() - self.count_ones()`)
         m_ = re.match(r"impl\s*(?:<[^>]*>\s*)?([A-Za-z_][A-Za-z0-9_]*)\s*(?:<[^>]*>\s*)?for\b", container)
-        if sig_only or not m_ or 'fn not found' not in str(e_):
+        md_ = re.match(r"impl\s*(?:<[^>]*>\s*)?Drop\s+for\s+([A-Za-z_][A-Za-z0-9_]*)", container)
+        if md_ and name == 'drop' and not sig_only and 'container not found' in str(e_):
+            # R23: the type no longer implements Drop.  What Rust runs when a value of the type is dropped is then the drop glue alone: the
+            # fields are dropped in declaration order.  The glue is written out for the fields whose types implement Drop in this crate
+            # (`self.F.drop_impl()`: R4b verifies `Drop::drop` of a crate type as the inherent function drop_impl) and verified against the
+            # contract the template states for dropping the type
+            xs_, xe_ = src.find_item('struct', md_.group(1))
+            stxt_ = src.text[xs_:xe_ + 1]
+            root_ = getattr(src, 'root', None)
+            alltxt_ = ''
+            if root_:
+                import glob as glob_
+                alltxt_ = '\n'.join(open(p_).read() for p_ in sorted(glob_.glob(os.path.join(root_, 'src', '**', '*.rs'), recursive=True)))
+            calls_ = []
+            for fm_ in re.finditer(r'(?m)^\s*(?:pub(?:\([a-z]+\))?\s+)?([a-z_][A-Za-z0-9_]*)\s*:\s*([A-Za-z_][A-Za-z0-9_]*)', stxt_[stxt_.index('{') + 1:]):
+                if re.search(r'impl\s*(?:<[^>]*>\s*)?Drop\s+for\s+' + re.escape(fm_.group(2)) + r'(?![A-Za-z0-9_])', alltxt_):
+                    calls_.append(fm_.group(1))
+            glue_ = 'fn drop(&mut self) {\n' + ''.join('        self.%s.drop_impl();\n' % f_ for f_ in calls_) + '    }'
+            gsrc_ = Source(src.path, text=src.text[:xs_] + glue_)
+            gsrc_.root = root_ if root_ else os.path.dirname(src.path)
+            impl_src = None
+            src, s, o, c = gsrc_, xs_, xs_ + glue_.index('{'), xs_ + len(glue_) - 1
+            r23 = True
+        elif sig_only or not m_ or 'fn not found' not in str(e_):
             raise
         found_ = None
-        root_ = getattr(src, 'root', None)
+        root_ = getattr(src, 'root', None) if not r23 else None
+        if r23:
+            found_ = (src, s, o, c)
         if root_:
             import glob as glob_
             for p_ in sorted(glob_.glob(os.path.join(root_, 'src', '**', '*.rs'), recursive=True)):
@@ -697,7 +724,7 @@ def weave_fn(src, container, name, nth, opts, subs, mode, sig_only=False):
         if not found_:
             raise
         src, s, o, c = found_
-        r22 = True
+        r22 = not r23
     raw = src.text[s:c + 1]
     line0 = src.line_of(s)
     # anchor-lock keys carry the source file: the same `impl .. for Iter<'a>::next` exists in several files
@@ -707,7 +734,9 @@ def weave_fn(src, container, name, nth, opts, subs, mode, sig_only=False):
         rewrites['R13'] = 1
     if r22:
         rewrites['R22'] = 1
-    if container.startswith('impl') and ' for ' in container and not sig_only:
+    if r23:
+        rewrites['R23'] = 1
+    if container.startswith('impl') and ' for ' in container and not sig_only and not r23:
         # a TRAIT impl block under contract: the number of functions it defines is locked.  A new override of a provided trait method
         # (`fn nth` next to `fn next`) would run instead of the default the contracts assume, and no obligation would be generated for it
         nfn = 0
